@@ -201,6 +201,18 @@ def ob_map(game, shape, labels, history, restack, include_names, ctx, ints=False
         _compare(ctx, "after-op%d" % i, m, model)
 
 
+def ob_mixed(game, ctx):
+    """edits through differently restricted stacks of one chart, in sequence: each must see the others' results"""
+    C = classes(game)
+    m = _chart(ctx, game, "full")
+    model = _model(m)
+    steps = [(None, COL_OPS[2]), ((C["HitList"],), COL_OPS[7]), (None, COL_OPS[0]), ((C["HoldList"], C["BpmList"]), COL_OPS[0]), (None, LOC_OPS[2])]
+    for i, (inc, op) in enumerate(steps):
+        st = m.stack(inc) if inc else m.stack()
+        do_op(ctx, i, op, st, model, inc)
+        _compare(ctx, "after-step%d" % i, m, model)
+
+
 def ob_mapset(kind, history, variant, ctx):
     """MapSet.stack(): row-wise broadcast over charts of different lengths."""
     if kind == "generic":
@@ -241,7 +253,9 @@ LOC_OPS = [("loc", (("offset", ">"),), ("offset",), "+", "any"), ("loc", (("offs
            ("loc", (("column", "<", 2),), ("column",), "+", "any")]
 SYM_LOC = (0, 1, 3)  # LOC_OPS whose threshold on the offsets is symbolic: every row forks, so they run on the small chart
 READS = [("read", "offset"), ("read", "column")]
-GAME_OPS = {"osu": [("col", "volume", "+", "any")], "sm": [], "qua": [], "bms": [], "o2j": []}
+OSU_PROPS = ["hitsound_set", "sample_set", "sample_set_index", "addition_set", "custom_set", "volume", "kiai"]
+GAME_OPS = {"osu": [("col", p, "+", "any") for p in OSU_PROPS] + [("set", p) for p in OSU_PROPS + ["hitsound_file"]], "sm": [], "qua": [("set", "keysounds")],
+            "bms": [("set", "sample")], "o2j": []}
 HALF_OPS = [("col", "offset", "*", "half"), ("col", "column", "*", "half"), ("loc", (("column", ">=", 1),), ("column",), "*", "half")]
 
 
@@ -299,6 +313,8 @@ def obligations(tier, seed):
             for h in itertools.product(ops3, repeat=3):
                 obs.append(Obligation("C12/hist3/%s/%s" % (g, "/".join(_n(o) for o in h)), partial(ob_map, g, "small", "reversed", list(h), False, None),
                                       bound=B % (g, "small", "reversed") + "; three operations on one stack object", max_paths=8000, timeout_s=400))
+    for g in GAMES:
+        obs.append(Obligation("C12/mixed-stacks/%s" % g, partial(ob_mixed, g), bound="%s chart: full stack, stack restricted to hits, full stack, stack restricted to holds+tempo, full stack (conditional); symbolic operands" % g))
     for kind in ("sm", "o2j", "generic"):
         for variant in ("same", "first-lacks", "short-second"):
             if kind == "generic" and variant == "short-second":
